@@ -1,6 +1,7 @@
 package props
 
 import (
+	"unicode/utf8"
 	"strconv"
 	"encoding/json"
 	"fmt"
@@ -237,6 +238,10 @@ func c16Gen(seed int64, idx int) *c16Case {
 				probe(strings.Repeat("aé日😀", 4)[:0] + string([]rune(strings.Repeat("aé日😀", 4))[:n]))
 			}
 		}
+		// byte sequences that are not UTF-8 (a stray byte, a cut sequence, an encoded surrogate, an overlong form)
+		for _, s := range []string{"\xff", "a\xc3", "\xed\xa0\x80", "\xc0\x80", "ab\xfe", "\xf8\x88\x80\x80\x80"} {
+			probe(s)
+		}
 		// characters at the borders of the YANG character set
 		for _, s := range []string{"a\x08c", "a\x00c", "\x1f", "a\tc", "a\rc", "a\x7fc", "a\ufffec", "a\uffffc", "a\ufdd0c", "a\ufdcfc", "a\ufffdc", "a\U0001fffec", "a\U0001fffdc", "a\U0010ffffc", "a\ue000c"} {
 			probe(s)
@@ -245,7 +250,6 @@ func c16Gen(seed int64, idx int) *c16Case {
 			"ab!", "!yz", "abyz", "xxq", "qc", "a", "c", "ayz", "abx"} {
 			probe(s)
 		}
-		c.unassert["\xff"] = true // not a character string at all
 	case 4: // enumeration / boolean / empty / bits / instance-identifier
 		switch r.Intn(5) {
 		case 3:
@@ -519,6 +523,9 @@ func c16ViolatesOnly(c *c16Case, pr string) bool {
 		}
 		return yang.BuiltinRange("decimal64", 64)[0].Contains(v) && sigDigits(pr) <= 15
 	case "string":
+		if !utf8.ValidString(pr) {
+			return false
+		}
 		for _, r := range pr {
 			if !yang.IsYangChar(r) {
 				// not a string at all: neither restriction is what is violated
